@@ -15,7 +15,7 @@ from gfv.core import Failure
 
 PROP = "C19"
 RULE = (
-    "(clobber) triples (old annotation, new annotation, force) over GFF3 and GTF inputs of 1-6 features on file databases; "
+    "(clobber) triples (old annotation, new annotation, force) over GFF3 and GTF inputs of 1-6 features on file databases (old databases optionally emptied, without statistics, or holding duplicate-key bookkeeping from an unmergeable 'merge' collision; the duplicates table is compared as well); "
     "non-trivial = old and new inputs differ. (reads) sequences of 5-30 read-style calls (look-ups incl. missing ids, "
     "all_features / features_of_type with filters, ordering and limits, children / parents, region, interfeatures, "
     "create_introns, create_splice_sites, merge, children_bp, bed12, counts, iter_by_parent_childs) with generated "
@@ -88,6 +88,7 @@ class ClobberLeg(object):
             "new": st.one_of(spec_strategy(st, "n"), spec_strategy(st, "o"), spec_strategy(st, "n"),
                              st.sampled_from([{"empty": ""}, {"empty": "##gff-version 3\n# nothing here\n"}, {"empty": "\n\n"}])),
             "force": st.booleans(),
+            "old_dups": st.booleans(),
             "keep_open": st.booleans(),
             "old_emptied": st.sampled_from([False, False, True]),
             "old_no_stats": st.sampled_from([False, False, True]),
@@ -114,6 +115,11 @@ class ClobberLeg(object):
         if case.get("old_emptied"):
             # an existing database need not hold features any more: it still has directives, dialect and id counters
             db.delete([f.id for f in db.all_features()], make_backup=False)
+        if case.get("old_dups") and not case.get("old_emptied"):
+            # the old database also holds duplicate-key bookkeeping (its first feature arrived a second time with another source, merge_strategy='merge')
+            first = next(iter(db.all_features()))
+            first.source = "elsewhere"  # other columns differ: 'merge' files it under '<key>_1' and records the pair
+            db.update([first], merge_strategy="merge", make_backup=False)
         if case.get("old_no_stats"):
             # databases written by old gffutils versions have no ANALYZE statistics; FeatureDB opens them (with a warning)
             db.execute("DROP TABLE IF EXISTS sqlite_stat1")
@@ -162,9 +168,18 @@ class ClobberLeg(object):
             db2 = gffutils.create_db(p_new, dbfn, spec3, True) if positional else gffutils.create_db(p_new, dbfn, force=True)
             snap_forced = dbsnap.snapshot(db2)
             db2.conn.close()
-            fresh = gffutils.create_db(p_new, ctx.path("fresh.db"))
+            fresh_fn = ctx.path("fresh.db")
+            fresh = gffutils.create_db(p_new, fresh_fn)
             snap_fresh = dbsnap.snapshot(fresh)
             fresh.conn.close()
+            dups = []
+            for fn in (dbfn, fresh_fn):
+                h = gffutils.FeatureDB(fn)
+                dups.append(sorted(tuple(r) for r in h.execute("SELECT idspecid, newid FROM duplicates")))
+                h.conn.close()
+            if dups[0] != dups[1]:
+                return Failure("create_db(force=True) left duplicate-key bookkeeping %r in the new database (a fresh import has %r)"
+                               % (dups[0][:4], dups[1][:4]), sig={"kind": "force-leftovers-duplicates"})
             dd = dbsnap.diff(snap_fresh, snap_forced)
             if dd or snap_fresh != snap_forced:
                 return Failure("create_db(force=True) differs from an import into a fresh path: %s" % dd, sig={"kind": "force-leftovers"})
